@@ -42,6 +42,13 @@ DensityGrid DensityGrid::fromIspdCircuit(const Circuit &circuit,
     clippedRows.emplace_back(row.minX + margin, row.maxX - margin, row.minY,
                              row.maxY);
   }
+  if (clippedRows.empty()) {
+    // No free space is left (rows covered by obstructions or narrower than the
+    // margin): keep the cells within the rows anyway, with no capacity
+    DensityGrid ret(sizeFactor * minCellHeight, circuit.computePlacementArea());
+    ret.updateBinCapacity(clippedRows);
+    return ret;
+  }
   return DensityGrid(sizeFactor * minCellHeight, clippedRows);
 }
 
